@@ -67,8 +67,19 @@ Definition value_count (fvs:fvs_t) : nat := fold_right (fun fv n => length (snd 
 
 Definition reported (rs:list vresult) : cres := (isnil rs, rs).
 
+(* sh:resultPath of an ordinary result: the property shape's path (an IRI, or a copied blank
+   node structure, abstracted to BN 0) *)
+Definition shape_rpath (s:shape) : option term :=
+  match spath s with
+  | None => None
+  | Some (PPred p) => Some (IRI p)
+  | Some _ => Some (BN 0)
+  end.
+
+Definition mkp (s:shape) (c:N) (f:term) (v:option term) (p:option term) (details:list vresult) : vresult :=
+  VR f v p c (sid s) (ssev s) details.
 Definition mk (s:shape) (c:N) (f:term) (v:option term) (details:list vresult) : vresult :=
-  VR f v c (sid s) (ssev s) details.
+  mkp s c f v (shape_rpath s) details.
 
 Definition lookup_all (E:env) (refs:list term) : res (list shape) :=
   mapM (fun r => match lookup E r with Some s => Ok s | None => Err Reportable end) refs.
@@ -94,12 +105,13 @@ Definition trig_t := list pentry -> term -> ckind -> option (list term).
 
 Section WithTriggers.
 Variable trig : trig_t.
+Variable W : world.   (* literal values, string lengths, regex matches: computed outside the model *)
 
 Definition evalc (nested:nested_t) (g:graph) (E:env) (s:shape) (fvs:fvs_t) (ep:list pentry) (c:comp)
   : res cres :=
   match c with
   | CLeaf l =>
-      Ok (reported (flat_map (fun fv => map (fun b => mk s (leaf_comp l) (fst fv) b []) (leaf_bad g l (fst fv) (snd fv))) fvs))
+      Ok (reported (flat_map (fun fv => map (fun b => mk s (leaf_comp l) (fst fv) b []) (leaf_bad W g l (fst fv) (snd fv))) fvs))
   | CNot refs =>
       let pr := trig ep (sid s) KNot in
       bind (concatM (map (fun r =>
@@ -191,6 +203,19 @@ Definition evalc (nested:nested_t) (g:graph) (E:env) (s:shape) (fvs:fvs_t) (ep:l
                       fvs) (fun ls => Ok (concat ls)))
               end) refs))
            (fun rs => Ok (reported rs))
+  | CClosed closed ignored =>
+      if negb closed then Ok (true, []) else
+      bind (mapM (fun r => match lookup E r with
+                           | Some ps => if is_property_shape ps then Ok ps else Err Reportable
+                           | None => Err Reportable
+                           end) (prop_refs s))
+           (fun pss =>
+              let working := flat_map (fun ps => match spath ps with Some (PPred p) => [IRI p] | _ => [] end) pss in
+              Ok (reported (flat_map (fun fv => flat_map (fun v => flat_map (fun t =>
+                    if (term_eqb (tpred t) t_rdf_type && term_eqb (tobj t) t_rdfs_Resource)   (* ALWAYS_IGNORE *)
+                       || tmem (tpred t) ignored || tmem (tpred t) working then []
+                    else [mkp s sh_ClosedConstraintComponent (fst fv) (Some (tobj t)) (Some (tpred t)) []])
+                  (filter (fun t => term_eqb (tsubj t) v) g)) (snd fv)) fvs)))
   end.
 
 (* ---------------- the constraint loop of Shape.validate ---------------- *)
@@ -294,5 +319,6 @@ End WithTriggers.
 (* the implementation: back-out by ConstraintComponent.recursion_triggers *)
 Definition validate_impl := validate recursion_triggers.
 Definition validate_sel_impl := validate_sel recursion_triggers.
+Definition validate_impl0 := validate recursion_triggers empty_world.
 (* the reference: never back out *)
 Definition no_triggers : trig_t := fun _ _ _ => None.
